@@ -10,7 +10,8 @@ job (a *pair* of configurations plus, optionally, a mutation of the documents be
   {"hardware": [{"id": "hw1", "kind": "bool_rw"|"num_rw"|"num_ro"|"custom", "input": 3}, ...],   # non-virtual ports, same on both hubs
    "source": [op, ...], "target": [op, ...],
    "mutate": null | [["ports"|"device"|"devices"|"peripherals", mutation], ...],
-   "restore": ["device", "peripherals", "devices", "ports"]}          # which documents are PUT, in this order
+   "restore": ["device", "peripherals", "devices", "ports"],          # which documents are PUT, in this order
+   "sim": {host: {name, flags, ...}}}                                 # simulated slave devices (what GET /device answers); other hosts refuse
 op:
   ["post_port", {id, type, min?, max?, integer?, step?, choices?}] | ["patch_port", id, {attr: value}] | ["patch_value", id, value]
   | ["delete_port", id] | ["patch_device", {attr: value}] | ["put_slaves", [entry, ...]] | ["patch_slave", name, {...}]
@@ -171,6 +172,36 @@ class Hub:
             return await orig_hvc(*a, **kw)
 
         core_main.handle_value_changes = counting_hvc
+
+        # simulated slave devices: Slave.api_call answers from hub.sim (host -> the device's GET /device attributes; a host that is
+        # not there refuses the connection); the listen / poll loops idle, so a live device stays `online: false` and no traffic
+        # is attempted; PUT /devices does not wait for devices to come online
+        from qtoggleserver.core import responses as core_responses
+        settings.slaves.long_timeout = 0
+        self.sim = {}
+
+        async def sim_api_call(slave, method, path, body=None, timeout=None, retry_counter=0):
+            dev = hub.sim.get(slave.get_host())
+            if dev is None:
+                raise core_responses.ConnectionRefused()
+            slave.update_last_sync()
+            if (method, path) == ('GET', '/device'):
+                return copy.deepcopy(dev)
+            if (method, path) == ('GET', '/ports'):
+                return []
+            if method == 'GET' and path in ('/webhooks', '/reverse'):
+                return {}
+            raise core_responses.HTTPError(404, 'no-such-function')
+
+        async def idle_loop(slave):
+            try:
+                await asyncio.sleep(3600)
+            except asyncio.CancelledError:
+                pass
+
+        slaves_devices.Slave.api_call = sim_api_call
+        slaves_devices.Slave._listen_loop = idle_loop
+        slaves_devices.Slave._poll_loop = idle_loop
 
         self.hw_classes = {'bool_rw': HwBoolRW, 'num_rw': HwNumRW, 'num_ro': HwNumRO, 'custom': HwCustom}
         self.transform_log = []
@@ -351,6 +382,8 @@ class Hub:
                 r = await self.call(self.api_slaves.put_slave_devices, copy.deepcopy(op[1]))
             elif kind == 'patch_sequence':   # ["patch_sequence", id, {"values": [...], "delays": [ms...], "repeat": n}]
                 r = await self.call(self.api_ports.patch_port_sequence, op[1], copy.deepcopy(op[2]))
+            elif kind == 'post_slave':       # ["post_slave", {scheme, host, port, path, admin_password, poll_interval?, listen_enabled?}]
+                r = await self.call(self.api_slaves.post_slave_devices, copy.deepcopy(op[1]))
             elif kind == 'patch_slave':      # ["patch_slave", name, {poll_interval | listen_enabled | enabled}]
                 r = await self.call(self.api_slaves.patch_slave_device, op[1], copy.deepcopy(op[2]))
             elif kind == 'post_peripheral':
@@ -463,6 +496,7 @@ def mutate(doc, m):
 
 async def run_job(hub, job):
     res = {'clean': []}
+    hub.sim = copy.deepcopy(job.get('sim') or {})
     res['clean'] += await hub.teardown()
     res['device_defaults'] = (await hub.docs())['device']
     hub.transform_log = []
